@@ -1,4 +1,4 @@
-import Proofs.SubmitPending
+import Proofs.SubmitBytes
 import Proofs.CrashStart
 
 /-! Every node reachable from a fresh start — production, submission ticks, inclusion passes **and restarts** (clean
@@ -183,6 +183,8 @@ structure R (c : Cfg) (a : ANode) : Prop extends W c a, D c a where
   g : G c a
   /-- the DA-included height is at least `initialHeight − 1` and a restart reports at most what the node reports -/
   pdw : PDw c a
+  /-- every blob the DA double holds is the wire encoding of a stored signed header / signed data -/
+  bytes : BY c a
 
 theorem R.wmOK {c : Cfg} {a : ANode} (r : R c a) : WmOK a.n.store := by
   obtain ⟨w1, hw1, _⟩ := r.ph
@@ -207,7 +209,9 @@ theorem R_fresh (c : Cfg) (h1 : 1 ≤ c.initialHeight) : R c (freshA c) := by
     obtain ⟨_, _, hkv, _⟩ := freshDisk_facts c
     have hm : (freshNode c).store.getMeta daIncKey = none := hkv _ (by decide) (by decide)
     exact ⟨Nat.le_refl _, by show loadInc c (freshNode c).store ≤ c.initialHeight - 1; rw [loadInc_none hm]; exact Nat.le_refl _⟩
-  refine { W_fresh c h1, D_fresh c h1 with live := hl, synced := hsy, ph := ?_, pd := ?_, g := G_fresh c h1, pdw := hpdw }
+  have hby : BY c (freshA c) := ⟨rfl, fun e he => by cases he⟩
+  refine { W_fresh c h1, D_fresh c h1 with
+           live := hl, synced := hsy, ph := ?_, pd := ?_, g := G_fresh c h1, pdw := hpdw, bytes := hby }
   · show ∃ w, wmOf (freshNode c).store Producer.hdrWmKey = some w ∧ w ≤ (freshNode c).hdrWm
     by_cases hc : c.initialHeight > 1 ∧ c.initialHeight - 1 > 0
     · rw [if_pos hc] at e5
@@ -226,23 +230,24 @@ theorem R_fresh (c : Cfg) (h1 : 1 ≤ c.initialHeight) : R c (freshA c) := by
 /-- an action that leaves height, blocks, last state and saved state alone -/
 theorem R.of_frame {c : Cfg} {a a' : ANode} (r : R c a) (w : W c a') (d : D c a') (hh : a'.n.store.height = a.n.store.height)
     (hb : ∀ k, a'.n.store.getBlock k = a.n.store.getBlock k) (hl : a'.n.lastState = a.n.lastState)
-    (hs : a'.n.store.state = a.n.store.state) (ph : PLe false a') (pd : PLe true a') (g : G c a') (pdw : PDw c a') :
-    R c a' :=
+    (hs : a'.n.store.state = a.n.store.state) (ph : PLe false a') (pd : PLe true a') (g : G c a') (pdw : PDw c a')
+    (y : BY c a') : R c a' :=
   { w, d with
     live := Live.of_same r.live hh hb hl
     synced := by have := r.synced; unfold Synced at this ⊢; rw [hs, hl]; exact this
-    ph := ph, pd := pd, g := g, pdw := pdw }
+    ph := ph, pd := pd, g := g, pdw := pdw, bytes := y }
 
 theorem R.step {c : Cfg} {a : ANode} (r : R c a) (act : Act) : R c (stepA c a act) := by
   have w := r.toW.step act
   have d := D.step r.toW r.toD act
   have g := stepA_G r.g act
   have pdw := r.pdw.step r.live act
+  have y := r.bytes.step r.pinv r.low r.dlow act
   cases act with
   | produce rs e =>
     obtain ⟨w1, w2⟩ := publish_wm c a.n rs e
     obtain ⟨s1, _, _⟩ := publish_synced r.live r.synced r.wmOK rs e
-    refine { w, d with live := publish_live r.live rs e, synced := s1, ph := ?_, pd := ?_, g := g, pdw := pdw }
+    refine { w, d with live := publish_live r.live rs e, synced := s1, ph := ?_, pd := ?_, g := g, pdw := pdw, bytes := y }
     · obtain ⟨x, hx, hle⟩ := r.ph
       refine ⟨x, ?_, ?_⟩
       · show wmOf (publish c a.n rs e).1.store (wmKey false) = some x
@@ -258,15 +263,15 @@ theorem R.step {c : Cfg} {a : ANode} (r : R c a) (act : Act) : R c (stepA c a ac
   | subH s =>
     obtain ⟨items, hi, _⟩ := headersIter_iter a s
     exact r.of_frame w d hi.frame.height hi.frame.getBlock hi.frame.lastState hi.frame.state (hi.ple r.ph)
-      (hi.ple_other (d := false) r.pd) g pdw
+      (hi.ple_other (d := false) r.pd) g pdw y
   | subD s =>
     obtain ⟨items, hi, _⟩ := dataIter_iter a s
     exact r.of_frame w d hi.frame.height hi.frame.getBlock hi.frame.lastState hi.frame.state
-      (hi.ple_other (d := true) r.ph) (hi.ple r.pd) g pdw
+      (hi.ple_other (d := true) r.ph) (hi.ple r.pd) g pdw y
   | incl =>
     have hi : PassInv a (includerIter a).1 (includerIter a).2 :=
       includerPass_inv (a.n.store.height + 1) a a [] (PassInv.init a)
-    refine r.of_frame w d hi.frame.height hi.frame.getBlock hi.frame.lastState hi.frame.state ?_ ?_ g pdw
+    refine r.of_frame w d hi.frame.height hi.frame.getBlock hi.frame.lastState hi.frame.state ?_ ?_ g pdw y
     · obtain ⟨x, hx, hle⟩ := r.ph
       refine ⟨x, ?_, ?_⟩
       · show wmOf (includerIter a).1.n.store (wmKey false) = some x
@@ -361,7 +366,7 @@ theorem R.restart {c : Cfg} {a : ANode} (r : R c a) (clean : Bool) :
     h.mono (by rw [hheq]; exact Nat.le_refl _) hblk' (fun e he => by rw [hda]; exact he)
   refine ⟨a', hr, ?_, ⟨?_, ?_, hheq, hblk', hda, hdby, hdah, hfin, hhm, hdm, hinc', hmd⟩⟩
   · refine { pinv := hl.toInv, low := ?_, le := ?_, dlow := ?_, dle := ?_, acc := ?_, mh := ?_, dacc := ?_, live := hl,
-             synced := hsy, ph := ?_, pd := ?_, g := ?_, pdw := ?_ }
+             synced := hsy, ph := ?_, pd := ?_, g := ?_, pdw := ?_, bytes := ?_ }
     · rw [e3]; exact (wmRaise_ge c _).2
     · rw [e3]
       have := r.le
@@ -416,6 +421,9 @@ theorem R.restart {c : Cfg} {a : ANode} (r : R c a) (clean : Bool) :
         · exact Or.inl r3
         · exact Or.inr ⟨dd, tD _ _ r3⟩
     · exact ⟨by rw [hinc]; exact loadInc_ge c _, by rw [hinc]; exact Nat.le_refl _⟩
+    · refine ⟨by rw [hda, hdby]; exact r.bytes.aligned, fun e he => ?_⟩
+      rw [hdby] at he
+      exact (r.bytes.entries e he).mono (Nat.le_refl _) (by rw [hheq]; exact Nat.le_refl _) hblk'
   · rw [e3]; exact hmono _ _ hle1'
   · rw [e4]; exact hmono _ _ hle2'
 
